@@ -3,7 +3,8 @@ import Cppcheck.Model.VFValidator
 C01 — soundness of the fact validator (Model/VFValidator.lean) with respect to the MiniC interpreter (Model/MiniC.lean).
 -/
 namespace Cppcheck.VFV
-open Cppcheck.Platforms Cppcheck.MiniC Cppcheck.Trunc
+open Cppcheck.Platforms Cppcheck.MiniC
+open Cppcheck.Trunc (wrapC)
 
 /-- what a fact claims about the value of its occurrence -/
 def Fact.holds (φ : Fact) (a : Int) : Prop :=
